@@ -24,7 +24,7 @@ T10 = Tuple[int, int, int, int, int, int, int, int, int, int]
 
 # JSON-representable labels that are neither epsilon spellings nor contain ' -> ' or ' / '
 STATE_LABELS = [0, 1, "0", "a b", 'x"y', "été", "starting_0", "q->r", 2.5, "INITIAL_STACK_HIDDEN"]
-SYMBOL_LABELS = ["a", "b", 1, "a b", 'x"y', "ε", "->", "/"]
+SYMBOL_LABELS = ["a", "b", 1, "a b", 'x"y', "ε", "->", "/", 0, ""]
 
 
 def plain_sorted(p):
@@ -317,9 +317,9 @@ def c20_rsa(b0: Tuple[int, int, int], n0: int, b1: Tuple[int, int, int], n1: int
 
 def _sh_fa(tier):
     if tier == "quick":
-        return product_pins(m=[2, 3], starts=[1, 3], finals=[2], l0=[0, 3], l1=[1, 2, 4, 5, 6], s0=[0], s1=[2, 3, 4])
+        return product_pins(m=[2, 3], starts=[1, 3], finals=[2], l0=[0, 3], l1=[1, 2, 4, 5, 6], s0=[0, 8], s1=[2, 3, 4, 9])
     return product_pins(m=[1, 2, 3], starts=[1, 3], finals=[2, 3], l0=[0, 2, 3, 7, 8], l1=[1, 2, 4, 5, 6, 9],
-                        s0=[0, 5], s1=[1, 2, 3, 4, 6, 7])
+                        s0=[0, 5, 8], s1=[1, 2, 3, 4, 6, 7, 9])
 
 
 def _sh_pda(tier):
@@ -353,7 +353,7 @@ ASSUME = ["labels come from a candidate list of JSON-representable values that a
 CONDS = [
     Cond("C20", c20_fa, _sh_fa,
          {"quick": "eps-NFA 2 states, 2-3 edges over 2 symbols + eps; state labels from {0,1,'0','a b','x\"y',unicode,"
-                   "'starting_0'}, symbol labels from {'a',1,'a b','x\"y'}: same states, marking, transitions",
+                   "'starting_0'}, symbol labels from {'a',0,1,'','a b','x\"y'}: same states, marking, transitions",
           "thorough": "more label pairs incl. 'q->r', 2.5, 'INITIAL_STACK_HIDDEN', '->', '/', greek epsilon-like"},
          FUNCS, RULE, assumptions=ASSUME),
     Cond("C20", c20_pda, _sh_pda,
